@@ -12,6 +12,9 @@ YEARS = [1980, 1999, 2001, 2023, 2038, 2069, 2099]
 
 def random_rate(rng, small=False):
     fam = rng.choice(["int", "third", "seventh", "x1001", "small", "small", "slow"]) if not small else rng.choice(["tiny", "tiny", "slow"])
+    if not small and rng.random() < 0.12:
+        # index * denominator beyond 2^64: any fixed-width intermediate in the placement arithmetic wraps
+        return rng.choice([30000000000, 12000000000, 10**10 + 1, 2**33 + 7]), rng.choice([1001, 1001, 3, 7])
     if fam == "int":
         return rng.choice([1, 10, 100, 1000, 48000, 10**6, 25 * 10**6, rng.randint(1, 10**7)]), 1
     if fam == "third":
@@ -56,6 +59,8 @@ def random_config(rng, schema, small=False):
             # low absolute indices: a power of ten (where the number of digits of the sample index changes) inside a
             # middle window, so that one file holds sample names of different lengths
             P = 10 ** rng.randint(1, 11)
+            while P > 10 and (P * d) // n >= 4102444800:      # keep the time of index P before 2100
+                P //= 10
             jP = (P * d // n) // fc
             j0 = max(0, jP - rng.randint(1, max(1, nw - 2)))
             special = [P - 2, P - 1, P, P + 1]
@@ -179,9 +184,14 @@ def build(tpl, fn):
     return {k: (build(v, fn) if isinstance(v, dict) else fn(v)) for k, v in tpl.items()}
 
 
-def make_data(rng, tpl, form, N, uniform):
+def make_data(rng, tpl, form, N, uniform, allow_empty=False):
     if form == "list":
-        return [build(tpl, lambda t: leaf_for_sample(rng, t)) for _ in range(N)]
+        out = [build(tpl, lambda t: leaf_for_sample(rng, t)) for _ in range(N)]
+        # a sample without any field is a sample too (never the first one of a channel: the writer takes the channel's
+        # field names from it)
+        if allow_empty and not uniform and rng.random() < 0.2:
+            out[rng.randrange(N)] = {}
+        return out
     if form == "single":
         return build(tpl, lambda t: leaf_for_sample(rng, t) if rng.random() < 0.85 or uniform else leaf_for_batch(rng, t, 1, uniform))
     return build(tpl, lambda t: leaf_for_batch(rng, t, N, uniform))
@@ -245,6 +255,8 @@ def observe(w, rng, mdreaders, stored, tops, nreads, uniform, rfreaders=(), ever
             cols, colform = [rng.choice(tops)], rng.choice(["str", "list"])
         else:
             cols, colform = sorted(rng.sample(tops, rng.randint(1, len(tops)))), "list"
+        if w.sparse:
+            cols, colform = [], "list"     # a column read over a sample that does not have the column: not defined
         api = "flatdict" if (uniform and rng.random() < 0.25) else "read"
         if api == "flatdict":
             colform = "list"
@@ -277,7 +289,7 @@ def dup_call(w, rng, tpl, stored, uniform):
             idxs = new + [new[-1]]
     N = len(idxs)
     form = rng.choice(["single", "dict", "list"]) if N == 1 else rng.choice(["dict", "list"])
-    ev = w.write(form, idxs, make_data(rng, tpl, form, N, uniform))
+    ev = w.write(form, idxs, make_data(rng, tpl, form, N, uniform, allow_empty=True))
     return set(ev["stored"])
 
 
@@ -328,7 +340,7 @@ def random_c12(digital_rf, root, rng, name):
                 break
             if form == "single":
                 idxs = idxs[:1]
-            ev = w.write(form, idxs, make_data(rng, tpl, form, len(idxs), uniform))
+            ev = w.write(form, idxs, make_data(rng, tpl, form, len(idxs), uniform, allow_empty=bool(stored)))
             if ev["resp"] == "ok":
                 stored |= set(idxs)
             else:
@@ -379,10 +391,12 @@ def random_c20(digital_rf, root, rng, name):
                     top = rng.randint(-1, max(stored) - 1)
                 idxs = [k for k in next_indices(rng, cfg, top, N) if k not in stored]
                 if idxs:
-                    ev = w.write(form, idxs, make_data(rng, tpl, form, len(idxs), uniform))
+                    ev = w.write(form, idxs, make_data(rng, tpl, form, len(idxs), uniform, allow_empty=bool(stored)))
                     stored |= set(idxs) if ev["resp"] == "ok" else set(ev["stored"])
         elif r < 0.75:
             w.rf_write(rng.choice([1, rng.randint(1, cap), cap, cap + 1, 2 * cap + 1]))
+        if rng.random() < 0.25:
+            w.age(cfg.fc + rng.randint(1, 7200))       # every file is now older than the file cadence
         # a round of read-only calls by old and new readers of each kind
         new_md, new_rf = newr("md"), newr("rf")
         mdr, rfr = [old_md, new_md], [old_rf, new_rf]
@@ -482,6 +496,8 @@ def replay_behaviour(digital_rf, root, beh, i, rng, tla_to_py, deep, name):
         elif a == "RFWrite":
             w.rf_write(rng.randint(1, 7))
         elif a == "NewReader":
+            if deep and rng.random() < 0.3:
+                w.age(cfg.fc + rng.randint(1, 7200))
             kind = tla_to_py(st["readers"])
             kind = kind[last["r"]]["kind"] if isinstance(kind, dict) else kind[last["r"] - 1]["kind"]
             w.new_reader(last["r"], kind)
